@@ -87,6 +87,14 @@ def gen_inputs(tier, rng):
         for s0 in (ch, ch + 'a', 'a' + ch + 'b', 'a ' + ch, ch + ' ' + ch, ' ' + ch + '\t'):
             inputs.append((('Paragraph', 'Span', 'Header')[k % 3], [s0])); k += 1
             inputs.append((('Paragraph', 'Span', 'Header')[k % 3], [s0[:1], s0[1:]])); k += 1
+    # strings that LOOK like markup: they are character data and must come back verbatim (the serialiser works on text)
+    lookalikes = [' xmlns:a="b"', 'x xmlns:text="urn:x" y', ' xmlns:="" ', '<text:s/>', '<text:tab/>x', '&amp;', '&#32;x&#9;', ']]>',
+                  '<!-- c -->', '<?pi d?>', '"q"', "'", 'a="b"', '<text:p>', '</text:p>', ' text:c="3"', '\\n', '%s', '{0}']
+    for la in lookalikes:
+        for s0 in (la, 'a' + la + 'b', la + ' ' + la, ' ' + la, la + '\t'):
+            inputs.append((('Paragraph', 'Span', 'Header')[k % 3], [s0])); k += 1
+            cut = len(s0) // 2
+            inputs.append((('Paragraph', 'Span', 'Header')[k % 3], [s0[:cut], s0[cut:]])); k += 1
     for _ in range(1500 if tier == "quick" else 60000):
         n = rng.randint(0, 12 if tier == "quick" else 40)
         s = ''.join(rng.choice(syms + rare) for _ in range(n))
